@@ -283,8 +283,49 @@ class SpecMixin(object):
   def spec_global_call(self, path, args, cx):
     rt = self.pure_ret_type(path)
     if rt is None:
+      c = self.world.contracts.get(path)
+      if (getattr(self, 'comp_calls', None) is not None and c is not None and c.mode != 'event'
+          and c.modifies == [] and not c.requires and not c.raises and not c.abstract):
+        return self.comp_contract_call(c, path, args, cx)
       raise SpecError('function %s is not declared pure' % path)
     return self.pure_app(path, args, rt, cx)
+
+  def comp_contract_call(self, c, path, args, cx):
+    """A call, inside a comprehension element, of a function under a total, frame-free contract
+    (no requires, no raises, modifies nothing): its result is a function of the arguments in the heap
+    the comprehension is evaluated in (one fresh function symbol per comprehension evaluation), and the
+    callee's ensures are collected as side conditions that comp_to_seq assumes for every index."""
+    rty = parse_type(c.types.get('return', c.returns or 'Any'))
+    key = (path, len(args))
+    if key not in self.comp_calls:
+      self.comp_calls[key] = ufn(fresh_name('cpure!' + path), *([U] * len(args) + [sort_of(rty)]))
+    t = self.comp_calls[key](*[to_u(a, cx) for a in args])
+    if sort_of(rty) == B:
+      result = VBool(t)
+    elif sort_of(rty) == I:
+      result = VInt(t)
+    elif sort_of(rty) == S:
+      result = VStr(t)
+    else:
+      result = VRef(t, rty)
+    if self.comp_side is not None:
+      node = self.contract_node(c)
+      names = [a.arg for a in node.args.posonlyargs + node.args.args]
+      if len(names) != len(args):
+        raise SpecError('comprehension call of %s: positional arguments only' % path)
+      env = dict(zip(names, args))
+      modinfo = self.world.module(c.module)
+      oldcx = SpecCtx(env, cx.heap, cx.pc, None, modinfo)
+      env2 = dict(env)
+      env2['result'] = result
+      post = SpecCtx(env2, cx.heap, cx.pc, oldcx, modinfo)
+      self.spec_contract_stack.append(c)
+      try:
+        for e in c.ensures:
+          self.comp_side.append(self.spec_bool(e, post))
+      finally:
+        self.spec_contract_stack.pop()
+    return result
 
   def spec_method(self, base, meth, args, cx, n):
     if isinstance(base, VGlobal):
@@ -602,6 +643,8 @@ class SpecMixin(object):
         self.axioms.append(ForAllT(vs, ecx.heap.alloc(f(*vs))))
       else:
         self.axioms.append(ecx.heap.alloc(f()))
+    if ecx is not None and getattr(self, 'mode', 'vc') != 'event':
+      mark_entry(t)
     return VRef(t, rty)
 
   def pure_ret_type(self, path):
